@@ -72,7 +72,8 @@ class OutputsArm(Arm):
     name = "outputs"
     budget = {"quick": 500, "thorough": 8000}
     min_per_shard = 20
-    required_labels = ("form:list", "form:dict", "wildcard", "depth>=1", "depth>=2", "vec", "novec", "multi_node_key")
+    required_labels = ("form:list", "form:dict", "wildcard", "depth>=1", "depth>=2", "vec", "novec", "multi_node_key",
+                       "recompiled:other:in_place", "recompiled:same")
 
     def strategy(self, ctx):
         @st.composite
@@ -84,7 +85,8 @@ class OutputsArm(Arm):
             rm = RefModel(spec)
             req = draw(request_strategy(spec, rm))
             return {"spec": spec, "req": req,
-                    "cfg": {"vectorize": draw(st.booleans()), "dt": 0.01, "steps": draw(st.integers(6, 14))}}
+                    "cfg": {"vectorize": draw(st.booleans()), "dt": 0.01, "steps": draw(st.integers(6, 14)),
+                            "recompiled": draw(st.sampled_from([None, None, "same", "other"])), "in_place": draw(st.booleans())}}
         from ..finding_predicates import repair_case
         return case().map(lambda c: repair_case(c, ctx))
 
@@ -133,11 +135,35 @@ class OutputsArm(Arm):
             res.rejected = f"model-does-not-run:{type(e).__name__}"
             return res
         if not okbase:
-            res.rejected = "model deviates from reference already with single-path outputs (C01/C04)"
+            # (shapes of listed C01/C04 findings were excluded above; what is left is a wrong column under the most
+            # basic request form: one full path per key)
+            bad = [p for i, p in enumerate(sp) if np.max(np.abs(np.asarray(base[f"v{i}"], dtype=float) - traj[p])) > 1e-8 * scale]
+            res.violate(f"wrong-trajectory:single-path:{'vec' if cfg['vectorize'] else 'novec'}",
+                        f"outputs with one full path per key: column(s) of {bad[:3]} do not carry the trajectory of the "
+                        f"variable they name")
             return res
         outs = dict(requests) if form == "dict" else list(requests)
+        circuit, kw = None, {}
+        if cfg.get("recompiled"):
+            # the request is made on a CircuitTemplate instance that was compiled before (with the same or the other
+            # vectorize setting): path resolution must not depend on what an earlier compilation left behind
+            from .. import isolate
+            from ..model import build_circuit
+            isolate.reset()
+            circuit = build_circuit(spec)
+            first_vec = cfg["vectorize"] if cfg["recompiled"] == "same" else not cfg["vectorize"]
+            kw["in_place"] = bool(cfg.get("in_place"))
+            try:
+                run_circuit(spec, steps * dt, dt, {f"v{i}": p for i, p in enumerate(sp)}, vectorize=first_vec,
+                            circuit=circuit, **kw)
+            except HarnessError:
+                raise
+            except Exception as e:
+                res.rejected = f"first-compilation-raises:{type(e).__name__}"
+                return res
+            res.labels = sorted(set(res.labels) | {"recompiled:" + cfg["recompiled"] + (":in_place" if kw["in_place"] else "")})
         try:
-            df = run_circuit(spec, steps * dt, dt, outs, vectorize=cfg["vectorize"])
+            df = run_circuit(spec, steps * dt, dt, outs, vectorize=cfg["vectorize"], circuit=circuit, **kw)
         except HarnessError:
             raise
         except Exception as e:
